@@ -154,6 +154,18 @@ theorem profiles_agree (buf : Nat) (hb : 39 ≤ buf) (ops : List Op) (hv : Op.va
   obtain ⟨s2, e2, t2⟩ := fresh_writer_delivers ⟨buf, true⟩ hb ops hv
   exact ⟨s1, s2, e1, e2, by rw [t1, t2]⟩
 
+/-! ### "However the sink accepts them" -/
+
+/-- std's provided `write_all` loop (modelled as `writeAll`) over a sink that accepts at most `k`
+    bytes per call (`k = 0`: all) and answers every `j`-th call with `Interrupted` (`j = 0`: never;
+    `j = 1` would never accept anything) terminates and delivers exactly the slice, in order, from any
+    call phase — this is what the model's `flush` (`sink := sink ++ pend`) abstracts.  The loop is
+    std's, not rlib's: that `Write::write_all` *is* this loop stays trusted, and the harness runs the
+    real one over exactly these sinks. -/
+theorem write_all_delivers (k j : Nat) (hj : j ≠ 1) (st : SinkSt) (buf : ByteArray) :
+    ∃ st', writeAll k j (2 * buf.size + 2) st buf = .ok st' ∧ st'.data = st.data ++ buf :=
+  writeAll_spec k j hj _ st buf (by split <;> omega)
+
 /-! ### Round trip -/
 
 /-- Reading an integer back: parsing the rendered text returns the value (every width, `MIN`
@@ -358,5 +370,10 @@ example : IoRT.eligible demoOps = true := by decide +kernel
 example : ∃ s, runOps ⟨39, true⟩ demoOps WState.init = .ok s ∧
     IoRT.readBack 65536 3 true demoOps (txt (drop s).sink) = IoRT.expected (IoRT.planOps true demoOps) :=
   readback_driver ⟨39, true⟩ (by decide) demoOps (by decide) (by decide +kernel) 65536 (by decide) 3 true
+
+-- a 100-byte slice through a sink that takes 3 bytes at a time and interrupts every 2nd call
+example : ∃ st', writeAll 3 2 202 ⟨ByteArray.empty, 0⟩ (List.replicate 100 65).toByteArray = .ok st' ∧
+    st'.data = ByteArray.empty ++ (List.replicate 100 65).toByteArray :=
+  write_all_delivers 3 2 (by decide) _ _
 
 end Rlib.C09
